@@ -1,0 +1,149 @@
+//go:build verif
+
+// Contracts for the deductive checks under /verif (comment-only; no code).
+
+package dspinner
+
+// ---- abstract persistent pin state --------------------------------------------------------
+// muts(): number of successful mutations of the persistent pin state (records + indexes)
+// faulted(): some storage operation (datastore / index read or write, sync, decode) failed
+// dirtyMarked(): the dirty flag has been raised (setDirty) since the last setClean
+//@ ghost muts() Int
+//@ ghost faulted() bool
+//@ ghost dirtyMarked() bool
+
+// reads
+//@ func iface github.com/ipfs/boxo/pinning/pinner/dsindex.Indexer.HasAny
+//@   modifies faulted()
+//@   ensures (err != nil ==> faulted()) && (err == nil ==> faulted() == old(faulted()))
+//@ func iface github.com/ipfs/boxo/pinning/pinner/dsindex.Indexer.Search
+//@   modifies faulted()
+//@   ensures (err != nil ==> faulted()) && (err == nil ==> faulted() == old(faulted()))
+//@ func iface github.com/ipfs/go-datastore.Datastore.Get
+//@   modifies faulted()
+//@   ensures (err != nil ==> faulted()) && (err == nil ==> faulted() == old(faulted()))
+//@ func iface github.com/ipfs/go-datastore.Datastore.Sync
+//@   modifies faulted()
+//@   ensures (err != nil ==> faulted()) && (err == nil ==> faulted() == old(faulted()))
+// single mutations are atomic: they apply completely or fail without effect
+//@ func iface github.com/ipfs/boxo/pinning/pinner/dsindex.Indexer.Add
+//@   modifies muts(), faulted()
+//@   ensures err == nil ==> muts() == old(muts()) + 1 && faulted() == old(faulted())
+//@   ensures err != nil ==> muts() == old(muts()) && faulted()
+//@ func iface github.com/ipfs/boxo/pinning/pinner/dsindex.Indexer.Delete
+//@   modifies muts(), faulted()
+//@   ensures err == nil ==> muts() == old(muts()) + 1 && faulted() == old(faulted())
+//@   ensures err != nil ==> muts() == old(muts()) && faulted()
+//@ func iface github.com/ipfs/go-datastore.Datastore.Put
+//@   modifies muts(), faulted()
+//@   ensures err == nil ==> muts() == old(muts()) + 1 && faulted() == old(faulted())
+//@   ensures err != nil ==> muts() == old(muts()) && faulted()
+//@ func iface github.com/ipfs/go-datastore.Datastore.Delete
+//@   modifies muts(), faulted()
+//@   ensures err == nil ==> muts() == old(muts()) + 1 && faulted() == old(faulted())
+//@   ensures err != nil ==> muts() == old(muts()) && faulted()
+
+//@ func (*pinner).setDirty
+//@   assumed
+//@   modifies dirtyMarked(), p.dirty
+//@   ensures dirtyMarked()
+//@ func (*pinner).setClean
+//@   assumed
+//@   modifies dirtyMarked(), p.clean
+//@ func (*pinner).flushPins
+//@   assumed
+//@   modifies dirtyMarked(), p.clean, faulted()
+//@   ensures (err != nil ==> faulted()) && (err == nil ==> faulted() == old(faulted()))
+//@ func (*pinner).flushDagService
+//@   assumed
+//@   modifies faulted()
+//@   ensures (err != nil ==> faulted()) && (err == nil ==> faulted() == old(faulted()))
+//@ func (*pinner).loadPin
+//@   assumed
+//@   modifies faulted()
+//@   ensures (err != nil ==> faulted()) && (err == nil ==> faulted() == old(faulted()) && result0 != nil)
+//@ func newPin
+//@   assumed
+//@   ensures result != nil && result.Cid == c && result.Mode == mode && result.Name == name
+// encoding a pin record cannot fail for well-formed pins; a failure is counted as a fault
+//@ func encodePin
+//@   assumed
+//@   modifies faulted()
+//@   ensures (err != nil ==> faulted()) && (err == nil ==> faulted() == old(faulted()))
+//@ func (*pin).dsKey
+//@   assumed
+//@   pure
+// fetching the DAG does not touch the pin state
+//@ func ext github.com/ipfs/boxo/ipld/merkledag.FetchGraph
+//@ func (*pinner).begin
+//@   assumed
+//@ func (*pinner).removePinsForCid
+//@   assumed
+//@   modifies muts(), faulted(), dirtyMarked(), p.dirty, p.clean
+//@   ensures[errors_are_faults] err != nil ==> faulted()
+//@   ensures[no_fault_no_error] err == nil ==> faulted() == old(faulted())
+//@   ensures[nothing_removed] err == nil && !result0 ==> muts() == old(muts())
+
+// ---- C23: write ordering (every crash point between two writes is consistent) --------------
+// record before index; indexes before record on removal; dirty flag raised before any change
+//@ func (*pinner).addPin
+//@   prop C22 C23
+//@   arith int
+//@   requires p != nil
+//@   modifies all
+//@   site[dirty_flag_before_record] invoke:Datastore.Put : dirtyMarked() && arg2 == res("call:pin.dsKey#0") && arg3 == res("call:encodePin#0")
+//@   site[cid_index_after_record] invoke:Indexer.Add#0 : res("invoke:Datastore.Put#0") == nil && arg3 == res("call:newPin#0").Id
+//@   site[cid_index_after_record_d] invoke:Indexer.Add#1 : res("invoke:Datastore.Put#0") == nil && arg3 == res("call:newPin#0").Id
+//@   site[name_index_last] invoke:Indexer.Add#2 : res("invoke:Datastore.Put#0") == nil && arg2 == name && arg3 == res("call:newPin#0").Id && arg0 == p.nameIndex
+//@   site[recursive_in_r_index] invoke:Indexer.Add#0 : arg0 == p.cidRIndex && mode == ipfspinner.Recursive
+//@   site[direct_in_d_index] invoke:Indexer.Add#1 : arg0 == p.cidDIndex && mode == ipfspinner.Direct
+//@   ensures[errors_are_faults] err != nil ==> faulted()
+
+//@ func (*pinner).removePin
+//@   prop C22 C23
+//@   arith int
+//@   requires p != nil && pp != nil
+//@   modifies all
+//@   site[dirty_flag_first] invoke:Indexer.Delete : dirtyMarked()
+//@   site[record_deleted_last] invoke:Datastore.Delete : dirtyMarked() && (res("invoke:Indexer.Delete#0") == nil || res("invoke:Indexer.Delete#1") == nil) && (pp.Name != "" ==> res("invoke:Indexer.Delete#2") == nil)
+//@   site[recursive_from_r_index] invoke:Indexer.Delete#0 : arg0 == p.cidRIndex && pp.Mode == ipfspinner.Recursive && arg3 == pp.Id
+//@   site[direct_from_d_index] invoke:Indexer.Delete#1 : arg0 == p.cidDIndex && arg3 == pp.Id
+//@   ensures[errors_are_faults] err != nil ==> faulted()
+//@   ensures[no_fault_no_error] !faulted() ==> err == nil
+
+// ---- C22: failed calls change nothing -------------------------------------------------------
+// a call that fails for a reason other than a storage fault leaves the pin state untouched
+//@ func (*pinner).doPinDirect
+//@   prop C22
+//@   arith int
+//@   requires p != nil
+//@   modifies all
+//@   ensures[error_frame] err != nil && !faulted() ==> muts() == old(muts())
+//@   ensures[refuses_if_recursive] res("invoke:Indexer.HasAny#0") && res("invoke:Indexer.HasAny#0", 1) == nil ==> err != nil && muts() == old(muts())
+
+//@ func (*pinner).doPinRecursive
+//@   prop C22
+//@   arith int
+//@   requires p != nil
+//@   modifies all
+//@   ensures[error_frame] err != nil && !faulted() ==> muts() == old(muts())
+
+//@ func (*pinner).Unpin
+//@   prop C22
+//@   arith int
+//@   requires p != nil
+//@   modifies all
+//@   dyn calldyn noeffect
+//@   ensures[error_frame] err != nil && !faulted() ==> muts() == old(muts())
+//@   ensures[not_pinned] res("invoke:Indexer.HasAny#0", 1) == nil && !res("invoke:Indexer.HasAny#0") && res("invoke:Indexer.HasAny#1", 1) == nil && !res("invoke:Indexer.HasAny#1") && res("call:pinner.begin#0", 2) == nil ==> err == ipfspinner.ErrNotPinned
+//@   ensures[recursive_needs_flag] res("call:pinner.begin#0", 2) == nil && res("invoke:Indexer.HasAny#0", 1) == nil && res("invoke:Indexer.HasAny#0") && !recursive ==> err != nil && muts() == old(muts())
+
+//@ func (*pinner).PinWithMode
+//@   prop C22
+//@   arith int
+//@   requires p != nil
+//@   modifies all
+//@   dyn calldyn noeffect
+//@   ensures[invalid_mode_rejected] mode != ipfspinner.Recursive && mode != ipfspinner.Direct ==> err != nil && muts() == old(muts())
+//@   site[recursive_without_fetch] call:pinner.doPinRecursive : arg2 == c && arg3 == false && arg4 == name && mode == ipfspinner.Recursive
+//@   site[direct] call:pinner.doPinDirect : arg2 == c && arg3 == name && mode == ipfspinner.Direct
